@@ -163,11 +163,12 @@ type Report struct {
 // ---------------------------------------------------------------- world
 
 type world struct {
-	cfg   *Config
-	f     *gated.Filter
-	c     *ctrl
-	clock int
-	ord   int
+	napply int
+	cfg    *Config
+	f      *gated.Filter
+	c      *ctrl
+	clock  int
+	ord    int
 }
 
 var t0 = time.Date(2021, 1, 1, 0, 0, 0, 0, time.UTC)
@@ -212,6 +213,13 @@ var idSpelling = map[string]string{"x": " x", "y": "y\n", "z": "Z-\u00fc ", "": 
 
 func (w *world) apply(a *Action) outcome {
 	ctx := context.Background()
+	// every third call comes from a caller whose context is done already: the filter's bookkeeping does not depend on it
+	// (what the Broker makes of such a context is the Broker's answer, and the recording Sender has none)
+	if w.napply++; w.napply%3 == 2 {
+		cc, cancel := context.WithCancel(ctx)
+		cancel()
+		ctx = cc
+	}
 	c := w.c
 	c.composes, c.sends, c.sent, c.lastComp = 0, 0, nil, nil
 	c.failKind, c.failN = failOf(a)
